@@ -1,6 +1,7 @@
 package stack
 
 import (
+	"bufio"
 	"bytes"
 	"crypto/sha256"
 	"encoding/base64"
@@ -10,7 +11,10 @@ import (
 	"net/http"
 	"net/http/httptest"
 	"os"
+	"math"
+	"regexp"
 	"strconv"
+	"strings"
 	"sync"
 	"time"
 
@@ -37,6 +41,121 @@ var (
 	FrontEndHandler func(w http.ResponseWriter, r *http.Request, sb FESandbox, bs interop.Bootstrap)
 	FrontEndReset   func() // initDone = false: a new emulator process
 )
+
+// LineLog collects what the front end prints to standard output (START / END / REPORT lines).
+type LineLog struct {
+	mu    sync.Mutex
+	cond  *sync.Cond
+	lines []string
+	seen  map[int]bool
+	next  int
+	w     *os.File
+}
+
+// FELog is set by CaptureStdout (cmd/vhfe).
+var FELog *LineLog
+
+// CaptureStdout redirects the process's standard output into a pipe that a reader goroutine drains line by line.
+func CaptureStdout() {
+	r, w, err := os.Pipe()
+	if err != nil {
+		return
+	}
+	os.Stdout = w
+	l := &LineLog{w: w, seen: map[int]bool{}}
+	l.cond = sync.NewCond(&l.mu)
+	go func() {
+		sc := bufio.NewScanner(r)
+		sc.Buffer(make([]byte, 1<<20), 1<<20)
+		for sc.Scan() {
+			t := sc.Text()
+			l.mu.Lock()
+			if strings.HasPrefix(t, "VSYNC ") {
+				n, _ := strconv.Atoi(t[6:])
+				l.seen[n] = true
+				l.cond.Broadcast()
+			} else {
+				l.lines = append(l.lines, t)
+			}
+			l.mu.Unlock()
+		}
+	}()
+	FELog = l
+}
+
+// Sync returns once everything printed before the call has been read.
+func (l *LineLog) Sync() {
+	l.mu.Lock()
+	l.next++
+	n := l.next
+	l.mu.Unlock()
+	fmt.Fprintf(l.w, "VSYNC %d\n", n)
+	l.mu.Lock()
+	for !l.seen[n] {
+		l.cond.Wait()
+	}
+	delete(l.seen, n)
+	l.mu.Unlock()
+}
+
+var (
+	reDur    = regexp.MustCompile(`\tDuration: ([0-9.]+) ms\t`)
+	reBilled = regexp.MustCompile(`\tBilled Duration: ([0-9]+) ms\t`)
+)
+
+// For returns the classes of the lines printed for the request id, in order: START, END, REPORT (REPORT+init
+// with an init duration); a line whose content is not what the handler's format and arithmetic give is
+// "<class>-bad" (version, duration above the function timeout, billed duration not the duration rounded up).
+//
+// The START line carries the id the front end generated for the request; rapidcore.Server.Invoke reserves under an
+// id of its own and overwrites Invoke.ID with it (FastInvoke), so END and REPORT carry that one - the id the
+// runtime sees.  ids = {id before sandbox.Invoke, id after it returned}.
+func (l *LineLog) For(ids [2]string, timeoutMs float64) []string {
+	l.mu.Lock()
+	defer l.mu.Unlock()
+	out := []string{}
+	for _, t := range l.lines {
+		if !strings.Contains(t, "RequestId: "+ids[0]) && !strings.Contains(t, "RequestId: "+ids[1]) {
+			continue
+		}
+		reqid := ids[1]
+		switch {
+		case strings.HasPrefix(t, "START RequestId: "):
+			reqid = ids[0]
+			if t == "START RequestId: "+reqid+" Version: $LATEST" {
+				out = append(out, "START")
+			} else {
+				out = append(out, "START-bad")
+			}
+		case strings.HasPrefix(t, "END RequestId: "):
+			if t == "END RequestId: "+reqid {
+				out = append(out, "END")
+			} else {
+				out = append(out, "END-bad")
+			}
+		case strings.HasPrefix(t, "REPORT RequestId: "+reqid+"\t"):
+			cls := "REPORT"
+			if strings.Contains(t, "\tInit Duration: ") {
+				cls = "REPORT+init"
+			}
+			d := reDur.FindStringSubmatch(t)
+			b := reBilled.FindStringSubmatch(t)
+			ok := d != nil && b != nil
+			if ok {
+				dv, _ := strconv.ParseFloat(d[1], 64)
+				bv, _ := strconv.ParseFloat(b[1], 64)
+				ok = dv <= timeoutMs+0.01 && math.Abs(bv-math.Ceil(dv)) <= 1
+			}
+			if !ok {
+				cls += "-bad"
+			}
+			out = append(out, cls)
+		default:
+			out = append(out, "other")
+		}
+	}
+	return out
+}
 
 type feSandbox struct {
 	s   *Stack
@@ -91,6 +210,7 @@ func (f *feSandbox) Invoke(w http.ResponseWriter, inv *interop.Invoke) error {
 	}
 	label := s.noteBody(payload, fmt.Sprintf("p%d", k))
 	caller := s.feCaller(j)
+	idBefore := inv.ID
 	t0 := time.Now()
 	s.Rec.Emit(fmt.Sprintf("caller:%d", caller), "InvokeCall", "caller", caller, "k", k, "payload", label, "size", len(payload),
 		"ctx", inv.ClientContext, "trace", inv.TraceID, "nowMs", time.Now().UnixMilli(), "reqid", inv.ID, "fe", j,
@@ -98,6 +218,12 @@ func (f *feSandbox) Invoke(w http.ResponseWriter, inv *interop.Invoke) error {
 	s.invMu.Unlock()
 	tw := &teeWriter{inner: w}
 	err := f.api.Invoke(tw, inv)
+	s.mu.Lock()
+	if s.feReqIDs == nil {
+		s.feReqIDs = map[int][2]string{}
+	}
+	s.feReqIDs[j] = [2]string{idBefore, inv.ID}
+	s.mu.Unlock()
 	tw.mu.Lock()
 	body := append([]byte{}, tw.body.Bytes()...)
 	status := tw.status
@@ -154,8 +280,22 @@ func (s *Stack) FEInvoke(caller int, payload []byte, clientCtx, traceID string, 
 	body := w.Body.Bytes()
 	res := InvokeResult{Status: w.Code, Body: body, DurMs: time.Since(t0).Milliseconds()}
 	res.Class = s.classify(body)
+	lines := []string{}
+	if FELog != nil {
+		FELog.Sync()
+		s.mu.Lock()
+		id, reached := s.feReqIDs[j]
+		s.mu.Unlock()
+		if reached {
+			secs := s.Opt.TimeoutMs / 1000
+			if secs < 1 {
+				secs = 1
+			}
+			lines = FELog.For(id, float64(secs)*1000)
+		}
+	}
 	s.Rec.Emit(fmt.Sprintf("caller:%d", caller), "FERet", "caller", caller, "j", j, "status", w.Code, "body", res.Class,
-		"size", len(body), "sha", sha8(body), "durMs", res.DurMs)
+		"size", len(body), "sha", sha8(body), "durMs", res.DurMs, "lines", lines, "logged", FELog != nil)
 	return res
 }
 
